@@ -23,7 +23,7 @@ type World map[string]string
 var Baseline = World{
 	"qsig": "ok", "ak": "ok", "mut": "none", "bind": "ok", "qeSigner": "leaf", "authLen": "n32", "extra": "none",
 	"leafPki": "A", "interPki": "A", "rootPki": "A", "pool": "A", "leafRole": "pck", "nBlocks": "n3", "trailer": "none",
-	"pemType": "cert", "interCN": "platform", "leafId": "l1", "serials": "std", "sigShape": "any", "msgWide": "none", "interSlot": "inter", "rotVia": "pool", "sharedSigner": "distinct", "src": "gen",
+	"pemType": "cert", "interCN": "platform", "leafId": "l1", "serials": "std", "sigShape": "any", "msgWide": "none", "sgxOrder": "canon", "leafExtCritical": "no", "interSlot": "inter", "rotVia": "pool", "sharedSigner": "distinct", "src": "gen",
 	"tcbSigner": "ok", "tcbOver": "member", "tcbAlter": "none", "tcbExtra": "none", "tcbHdr": "ok", "tcbMeta": "ok",
 	"qeSignerDoc": "ok", "qeOver": "member", "qeAlter": "none", "qeExtra": "none", "qeHdr": "ok", "qeMeta": "ok",
 	"tcbContent": "ok", "modBranch": "none", "qeContent": "ok",
@@ -315,6 +315,9 @@ func Build(w World, p Params) *Concrete {
 		tcbSign = Reissue(H.TcbSign, H.Root.Cert, H.Root.Key, sw.nb, sw.na, nil)
 		qeSign = tcbSign
 	}
+	if w.Get("sharedSigner") == "sameKey" { // the signing certificate was re-issued: same key and subject, another serial; one per document
+		qeSign = Reissue(H.TcbSign, H.Root.Cert, H.Root.Key, win["qeSigner"].nb, win["qeSigner"].na, big.NewInt(serialBase+4))
+	}
 
 	// ---- pool -----------------------------------------------------------------------
 	switch w.Get("pool") {
@@ -335,6 +338,11 @@ func Build(w World, p Params) *Concrete {
 		c.Pool.AddCert(A.Root.Cert)
 		c.Pool.AddCert(B.Root.Cert)
 		c.PoolDERs = [][]byte{A.Root.DER, B.Root.DER}
+	case "AI": // the caller's bundle lists the platform CA next to the root
+		c.Pool = x509.NewCertPool()
+		c.Pool.AddCert(A.Inter.Cert)
+		c.Pool.AddCert(A.Root.Cert)
+		c.PoolDERs = [][]byte{A.Inter.DER, A.Root.DER}
 	default:
 		panic("bad pool")
 	}
@@ -347,7 +355,7 @@ func Build(w World, p Params) *Concrete {
 	sgx.PCESvn = int64(100 + rng.Intn(60000))
 	c.Sgx = sgx
 	c.FMSPC = hex.EncodeToString(sgx.FMSPC)
-	ext := SgxExt(sgx)
+	ext := SgxExtOrdered(sgx, w.Get("sgxOrder"))
 
 	leafSerial := new(big.Int).SetBytes(append(append([]byte{}, leafTop...), RandBytes(rng, 19)...)) // 20-byte positive serial like Intel's
 	if len(leafTop) == 0 {
@@ -366,23 +374,23 @@ func Build(w World, p Params) *Concrete {
 	}
 	switch w.Get("leafRole") {
 	case "pck":
-		leaf = H.NewLeafKey(leafKey, CNPck, leafSerial, ext, lw.nb, lw.na)
+		leaf = H.NewLeafKeyCrit(leafKey, CNPck, leafSerial, ext, lw.nb, lw.na, w.Get("leafExtCritical") == "yes")
 	case "wrongCN": // right issuer, SGX extension present, but the subject of another role
-		leaf = H.NewLeafKey(leafKey, CNTcbSign, leafSerial, ext, lw.nb, lw.na)
+		leaf = H.NewLeafKeyCrit(leafKey, CNTcbSign, leafSerial, ext, lw.nb, lw.na, w.Get("leafExtCritical") == "yes")
 	case "tcbSignByRoot": // a TCB-Signing-named certificate issued by the (trusted) root, carrying an SGX extension
 		k := leafKey
 		cert, der := Issue(CertSpec{CN: CNTcbSign, Serial: leafSerial, NotBefore: lw.nb, NotAfter: lw.na, CRLDP: []string{PckCrlURL("platform")},
-			SgxExt: ext, Pub: &k.PublicKey, Parent: H.Root.Cert, SignKey: H.Root.Key})
+			SgxExt: ext, SgxCritical: w.Get("leafExtCritical") == "yes", Pub: &k.PublicKey, Parent: H.Root.Cert, SignKey: H.Root.Key})
 		leaf = Entity{k, cert, der}
 	case "pckByRoot": // PCK-named, SGX extension, but issued directly by the (trusted) root
 		k := leafKey
 		cert, der := Issue(CertSpec{CN: CNPck, Serial: leafSerial, NotBefore: lw.nb, NotAfter: lw.na, CRLDP: []string{PckCrlURL("platform")},
-			SgxExt: ext, Pub: &k.PublicKey, Parent: H.Root.Cert, SignKey: H.Root.Key})
+			SgxExt: ext, SgxCritical: w.Get("leafExtCritical") == "yes", Pub: &k.PublicKey, Parent: H.Root.Cert, SignKey: H.Root.Key})
 		leaf = Entity{k, cert, der}
 	case "caAsLeaf": // a CA certificate (Platform-CA-named) issued by the root, carrying an SGX extension
 		k := leafKey
 		cert, der := Issue(CertSpec{CN: interCN, Serial: leafSerial, NotBefore: lw.nb, NotAfter: lw.na, IsCA: true, CRLDP: []string{PckCrlURL("platform")},
-			SgxExt: ext, Pub: &k.PublicKey, Parent: H.Root.Cert, SignKey: H.Root.Key})
+			SgxExt: ext, SgxCritical: w.Get("leafExtCritical") == "yes", Pub: &k.PublicKey, Parent: H.Root.Cert, SignKey: H.Root.Key})
 		leaf = Entity{k, cert, der}
 	default:
 		panic("bad leafRole")
@@ -724,6 +732,10 @@ func Build(w World, p Params) *Concrete {
 	case "modNoLevel":
 		tcb.Identities = []ModIdentity{decoy, {ID: modID, Levels: []ModLevel{{int(svn[0]) + 1, "UpToDate"}}}}
 		goodTcb.Identities = []ModIdentity{decoy, okMod}
+	case "modDecoyIds": // identities whose ids are not "TDX_" + two hex digits come before the right one and are simply not it
+		tcb.Identities = []ModIdentity{{ID: "TDX_", Levels: []ModLevel{{0, "Revoked"}}}, {ID: "TDX", Levels: []ModLevel{{0, "Revoked"}}}, {ID: "", Levels: []ModLevel{{0, "Revoked"}}},
+			{ID: "TDX_zz", Levels: []ModLevel{{0, "Revoked"}}}, {ID: modID + "0", Levels: []ModLevel{{0, "Revoked"}}}, {ID: "tdx_" + modID[4:], Levels: []ModLevel{{0, "Revoked"}}}, decoy, okMod}
+		goodTcb.Identities = tcb.Identities
 	case "modOmitted": // the signed member has no tdxModuleIdentities member at all
 		tcb.Identities = nil
 		goodTcb.Identities = []ModIdentity{decoy, okMod}
@@ -848,6 +860,18 @@ func Build(w World, p Params) *Concrete {
 			return c
 		}
 		qe.Levels = []ModLevel{{isv + 1, "Revoked"}, {isv, "UpToDate"}, {0, "OutOfDate"}}
+	case "attrsBothHalvesLE", "attrsBothHalvesBE": // the expected value differs from the masked report in both 8-byte halves, the two
+		// differences being each other's two's complement (read little- or big-endian): wordwise arithmetic must not cancel them
+		b := and(qattr, amask)
+		if w.Get("qeContent") == "attrsBothHalvesLE" {
+			b[0] ^= 0x01
+		} else {
+			b[7] ^= 0x01
+		}
+		for i := 8; i < 16; i++ {
+			b[i] ^= 0xff
+		}
+		qe.Attrs = hex.EncodeToString(b)
 	case "attrsShort": // mask and value cover FLAGS only (8 of 16 bytes) and agree with the report there
 		qe.AttrsMask, qe.Attrs = hex.EncodeToString(amask[:8]), hex.EncodeToString(and(qattr, amask)[:8])
 	case "attrsEmpty":
@@ -914,6 +938,15 @@ func Build(w World, p Params) *Concrete {
 			}
 			signKey = os.Key
 			hdrCerts = [][]byte{os.DER, O.Root.DER}
+		case "pkiBSameSki": // the look-alike PKI again, its root and signer now also repeating the genuine certificates' key identifiers
+			rk := O.Root.Key
+			rc, rd := Issue(CertSpec{CN: CNRoot, Serial: O.Root.Cert.SerialNumber, NotBefore: farNB, NotAfter: farNA, IsCA: true, CRLDP: dps, Pub: &rk.PublicKey, SignKey: rk,
+				SKI: H.Root.Cert.SubjectKeyId})
+			k := NamedKey(ks, "lookalike-ski-signer-"+doc)
+			_, dd := Issue(CertSpec{CN: CNTcbSign, Serial: big.NewInt(serialBase + 3), NotBefore: farNB, NotAfter: farNA, CRLDP: dps, Pub: &k.PublicKey, Parent: rc, SignKey: rk,
+				SKI: signer.Cert.SubjectKeyId})
+			signKey = k
+			hdrCerts = [][]byte{dd, rd}
 		case "wrongRole": // a key the trusted root certified for another role (Platform CA)
 			signKey = H.Inter.Key
 			hdrCerts = [][]byte{H.Inter.DER, root.DER}
@@ -961,6 +994,7 @@ func Build(w World, p Params) *Concrete {
 			} else {
 				flipBit(bodyMember, p.AltBit)
 			}
+		case "sigMissing", "sigNull", "sigEmpty": // applied when the body is assembled
 		case "sigBit":
 			b := []byte(sig)
 			i := 1 + ((p.AltBit%128)+128)%128
@@ -974,6 +1008,14 @@ func Build(w World, p Params) *Concrete {
 			panic("bad alter dim")
 		}
 		members := [][2]string{{memberKey, string(bodyMember)}, {"signature", sig}}
+		switch w.Get(alterDim) {
+		case "sigMissing":
+			members = members[:1]
+		case "sigNull":
+			members[1][1] = "null"
+		case "sigEmpty":
+			members[1][1] = `""`
+		}
 		if w.Get(metaDim) == "memberMissing" {
 			members = [][2]string{{memberKey + "X", string(bodyMember)}, {"signature", sig}}
 		}
